@@ -1,7 +1,9 @@
 /-
   C14 — source tie.  `TaurexModel/Gen/SrcC14.lean` is regenerated on every run by `harness/translate.py` (dialect `py`,
   harness/translate_py.py) from the source text of taurex/cia/hitrancia.py, taurex/cia/picklecia.py, taurex/util/util.py
-  (`find_closest_pair`) and taurex/util/math.py (`interp_lin_only`).  The theorems state that each regenerated definition is
+  (`find_closest_pair`), taurex/util/math.py (`interp_lin_only`), the three caches (taurex/cache/opacitycache.py,
+  ktablecache.py, ciaacache.py), the file readers and name handling of the opacity / k-table classes and the Exo-Transmit
+  text parser (taurex/opacity/exotransmit.py).  The theorems state that each regenerated definition is
   the hand-written model function of `TaurexModel/Loaders.lean` / `Interp.lean` that `driver_c14` executes and the C14 theorems
   are about.  Generic in the carrier `α`.
 
@@ -13,6 +15,9 @@
   model's merge sort by `≤`.
 -/
 import Proofs.C14SrcLemmas
+import Proofs.C14SrcCaches
+import Proofs.C14SrcExo
+import Proofs.C14SrcHitran
 set_option linter.unusedSectionVars false
 
 namespace Taurex.C14Src
@@ -282,6 +287,386 @@ theorem src_add (fs : List Dir) (s : CSt) (m : String) (k : Nat) :
 
 end
 
+
+/-! ### the k-table cache (taurex/cache/ktablecache.py) against `CacheSM.stepK`
+
+  Same layout as above with `opacity_dict := KTableCache().opacity_dict`, `path := GlobalCache()['ktable_path']`;
+  `c.discover() := discoverK fs` (the files of the class under that path with the interpolation setting; it does not raise). -/
+
+section
+open Taurex.CacheSM
+
+/-- what a k-table class discovers under the settings of `s` -/
+theorem discoverK_eq (fs : List Dir) (w : World) (s : CSt) (c : Fmt) :
+    discoverK fs w s.path s.interp c
+      = .ok (((curFiles fs s).filter (fun e => decide (e.fmt = c))).map (argsOf s)) := by
+  unfold discoverK discoverM
+  show Except.ok (List.map _ (List.filter _ (curFiles fs s))) = _
+  congr 1
+  apply List.map_congr_left
+  intro e _
+  simp [argsOf, memOrTrue_eq]
+
+/-- `KTableCache.add_opacity(opacity, molecule_filter)` is `addOpacity` -/
+theorem src_k_add_opacity (s : CSt) (o : Obj) (filter : Option String) :
+    Gen.SrcC14.KTableCache_add_opacity o (filter.map (fun f => [f])) (fun o => o.mol) s.dict
+      = (addOpacity s o filter).dict := src_add_opacity s o filter
+
+/-- **`KTableCache.load_opacity_from_path(path, molecule_filter=[m])` is `loadFromK fs m`**: as for the cross-section cache,
+    but EVERY discovered file that advertises `m` is constructed (the loop has no `mol not in self.opacity_dict` test); the
+    `try: c.discover() except NotImplementedError: continue` of the loop is part of the translated text (`discoverK` does not
+    raise).  `path` (`self._opacity_path`) is not used by the function: the classes read `GlobalCache()['ktable_path']`. -/
+theorem src_k_load_opacity_from_path (fs : List Dir) (klasses : List Fmt) (s : CSt) (m : String) (p : Option Nat)
+    (hord : klasses.flatMap (fun c => (curFiles fs s).filter (fun e => decide (e.fmt = c))) = curFiles fs s) :
+    Gen.SrcC14.KTableCache_load_opacity_from_path p [m] constructM (discoverK fs) klasses s.path (fun o => o.mol)
+        s.dict (worldOf s) s.interp = (encS (loadFromK fs m s), Except.ok ()) := by
+  unfold Gen.SrcC14.KTableCache_load_opacity_from_path loadFromK
+  rw [← hord, foldl_flatMap]
+  simp only [Prod.eta]
+  generalize hR : Py.forE klasses _ _ = R
+  have key : R = (encS (klasses.foldl (fun t c =>
+      ((curFiles fs s).filter (fun e => decide (e.fmt = c))).foldl (loadStepK m) t) s), none) := by
+    rw [← hR]
+    refine forE_sim encS _ (fun t => Same t s) _ (fun t c h => foldl_loadStepK_same m _ t s h)
+      (fun s' c hs => ?_) klasses s ⟨rfl, rfl, rfl⟩
+    simp only [encS, discoverK_eq fs _ s c, Py.caseE_ok]
+    show (List.foldl _ (encS s') _, none) = _
+    rw [inner_loopK m s _ ?hG _ s' hs]
+    case hG =>
+      intro s'' e hs'
+      obtain ⟨_, hi, hm⟩ := hs'
+      simp only [encS, argsOf, worldOf, loadStepK, constructM, hasKey_eq_dhas, interpOr, Py.lhas, List.any_cons,
+        List.any_nil, Bool.or_false, hi, hm]
+      by_cases hd : e.disc = m
+      · subst hd
+        simp only [decide_true, if_true, beq_self_eq_true, Option.elim_some]
+        have h2 := src_k_add_opacity { s'' with nextId := s''.nextId + 1, log := s''.log ++ [(e.disc, e.fileId)] }
+          { id := s''.nextId, mol := e.obj, mode := s.interp.getD 0,
+            inMem := if e.fmt = Fmt.hdf then some (memOrTrue s.memMode) else none, src := some e.fileId } (some e.disc)
+        simp only [Option.map_some, hi, hm] at h2
+        have hl := congrArg CSt.log (src_add_opacity_frame
+          { s'' with nextId := s''.nextId + 1, log := s''.log ++ [(e.disc, e.fileId)] }
+          { id := s''.nextId, mol := e.obj, mode := s.interp.getD 0,
+            inMem := if e.fmt = Fmt.hdf then some (memOrTrue s.memMode) else none, src := some e.fileId } (some e.disc))
+        have hn := congrArg CSt.nextId (src_add_opacity_frame
+          { s'' with nextId := s''.nextId + 1, log := s''.log ++ [(e.disc, e.fileId)] }
+          { id := s''.nextId, mol := e.obj, mode := s.interp.getD 0,
+            inMem := if e.fmt = Fmt.hdf then some (memOrTrue s.memMode) else none, src := some e.fileId } (some e.disc))
+        simp only [hi, hm] at hl hn
+        by_cases hk2 : Py.dhas s''.dict e.obj = true
+        · simp [hk2]
+        · simp only [hk2, Bool.not_false, if_true]
+          refine Prod.ext ?_ (Prod.ext ?_ ?_)
+          · exact h2
+          · exact hl.symm
+          · exact hn.symm
+      · have : (e.disc == m) = false := by simpa using hd
+        simp [hd, this]
+    rfl
+  rw [key]
+  rfl
+
+/-- `KTableCache.load_opacity(molecule_filter=[m])` as `__getitem__` calls it -/
+theorem src_k_load_opacity (fs : List Dir) (klasses : List Fmt) (s : CSt) (m : String) (pa : Option Nat)
+    (hord : klasses.flatMap (fun c => (curFiles fs s).filter (fun e => decide (e.fmt = c))) = curFiles fs s) :
+    Gen.SrcC14.KTableCache_load_opacity [m] constructM (discoverK fs) klasses s.path (fun o => o.mol)
+        s.dict pa (worldOf s) s.interp = (encS (loadFromK fs m s), Except.ok ()) := by
+  unfold Gen.SrcC14.KTableCache_load_opacity
+  simp only [src_k_load_opacity_from_path fs klasses s m pa hord, Py.caseE_ok]
+
+/-- **`KTableCache()[m]` is `stepK fs s (.get m)`** -/
+theorem src_k_getitem (fs : List Dir) (klasses : List Fmt) (s : CSt) (m : String) (pa : Option Nat)
+    (hord : klasses.flatMap (fun c => (curFiles fs s).filter (fun e => decide (e.fmt = c))) = curFiles fs s) :
+    Gen.SrcC14.KTableCache_getitem m constructM (discoverK fs) klasses s.path (fun o => o.mol)
+        s.dict pa (worldOf s) s.interp
+      = (encS (stepK fs s (.get m)).1, respE (stepK fs s (.get m)).2) := by
+  unfold Gen.SrcC14.KTableCache_getitem
+  simp only [stepK, lookup_eq_dget, dhas_eq_isSome, Py.dgetE]
+  cases h1 : Py.dget s.dict m with
+  | some o => simp [encS, respE]
+  | none =>
+    simp only [Option.isSome_none, Bool.false_eq_true, if_false, src_k_load_opacity fs klasses s m pa hord, encS,
+      Py.caseE_ok]
+    cases h2 : Py.dget (loadFromK fs m s).dict m with
+    | some o => simp [respE]
+    | none => simp [respE]
+
+/-- `KTableCache.set_ktable_path(p)` is `stepK fs s (.setPath p)` (the path is stored, then `NotADirectoryError`) -/
+theorem src_set_ktable_path (fs : List Dir) (s : CSt) (p : Nat) :
+    Gen.SrcC14.KTableCache_set_ktable_path p (isdirM fs) (worldOf s)
+      = ((stepK fs s (.setPath p)).1.path,
+         match (stepK fs s (.setPath p)).2 with
+         | .done => Except.ok ()
+         | _ => Except.error (Py.Err.other "NotADirectoryError")) ∧
+    (stepK fs s (.setPath p)).1 = { s with path := (stepK fs s (.setPath p)).1.path } :=
+  src_set_opacity_path fs s p
+
+/-- `KTableCache.clear_cache()` is `stepK fs s .clear`; `_opacity_path` is re-read from the GlobalCache -/
+theorem src_k_clear_cache (fs : List Dir) (s : CSt) :
+    (Gen.SrcC14.KTableCache_clear_cache s.path : List (String × Obj) × Option Nat)
+      = ((stepK fs s .clear).1.dict, s.path) ∧
+    (stepK fs s .clear).1 = { s with dict := (stepK fs s .clear).1.dict } := ⟨rfl, rfl⟩
+
+/-- `KTableCache.add_opacity(opacity)` as a user calls it is `stepK fs s (.add m k)` -/
+theorem src_k_add (fs : List Dir) (s : CSt) (m : String) (k : Nat) :
+    Gen.SrcC14.KTableCache_add_opacity { id := s.nextId, mol := m, mode := k, inMem := none, src := none } none
+        (fun o => o.mol) s.dict = (stepK fs s (.add m k)).1.dict := src_add fs s m k
+
+
+end
+
+/-! ### the CIA cache (taurex/cache/ciaacache.py) against `CiaSM` of TaurexModel/CacheSM.lean
+
+  Layout (`Proofs/C14SrcCaches.lean`): `cia_dict` is the model's `dict`, `_cia_path` its `path`, the world `(log, nextId)`.
+  Instantiation of what the translated text leaves open: `isinstance(p, str) := isStr`, `isinstance(p, (list,)) := isList`,
+  iterating a list of paths `:= pathItems`, `os.path.join := Prod.mk`, `glob := globC fs` (the `*.db` / `*.cia` files of a
+  directory in glob order), `Path(f).stem := stem` — any function with `hdisc`: the stem up to the first `_` is the pair name
+  the model records for the file —, `PickleCIA(f, name) := constructP`, `HitranCIA(f) := constructH`, `cia.pairName := o.pair`. -/
+
+section
+open Taurex.CiaSM
+
+/-- `CIACache.add_cia(cia)` is `addCia` -/
+theorem src_cia_add_cia (s : St) (o : CObj) :
+    Gen.SrcC14.CIACache_add_cia o s.dict (fun o => o.pair) = ((addCia s o).1.dict, excB (addCia s o).2) := by
+  unfold Gen.SrcC14.CIACache_add_cia addCia
+  rw [chasKey_eq_dhas]
+  cases hk : Py.dhas s.dict o.pair with
+  | true => simp [excB]
+  | false => simp [excB, dset_new _ _ _ hk]
+
+/-- the filter of `add_cia(cia, pair_filter)` has no effect: the object is stored either way -/
+theorem src_cia_add_filter_ignored (d : List (String × CObj)) (o : CObj) (f : List String) :
+    Gen.SrcC14.CIACache_add_cia_filtered o f d (fun o => o.pair) = Gen.SrcC14.CIACache_add_cia o d (fun o => o.pair) := by
+  unfold Gen.SrcC14.CIACache_add_cia_filtered Gen.SrcC14.CIACache_add_cia
+  cases hk : Py.dhas d o.pair with
+  | true => simp
+  | false =>
+    by_cases hf : Py.lhas f o.pair = true
+    · simp [hf, dset_dset]
+    · simp [hf]
+
+
+section
+variable (fs : List CDir) (stem : CFile → String) (hdisc : ∀ e, (Py.split1 '_' (stem e)).getD 0 "" = e.disc)
+include hdisc
+
+/-- **`CIACache.load_cia_from_path(path, pair_filter=[m])` is `loadDir fs m`**: the `*.db` files of the directory, then its
+    `*.cia` files; every file whose stem up to the first `_` is `m` is constructed and handed to `add_cia`, whose exception
+    ends the function with the cache as it is then -/
+theorem src_cia_load_from_path (s : St) (m : String) (p : Nat) :
+    Gen.SrcC14.CIACache_load_cia_from_path (CPath.single p) (some [m]) () () s.dict constructH constructP (globC fs)
+        (fun o => o.pair) Prod.mk stem (s.log, s.nextId)
+      = (encC (loadDir fs m s p).1, excB (loadDir fs m s p).2) := by
+  unfold Gen.SrcC14.CIACache_load_cia_from_path loadDir
+  simp only [Option.elim_some, Prod.eta]
+  generalize hR : Py.forE (globC fs (s.log, s.nextId) (CPath.single p, "*.db")) _ _ = R
+  have key : R = (encC (forB (loadStep m) s (dirFiles fs p .db)).1,
+      if (forB (loadStep m) s (dirFiles fs p .db)).2 then some Py.Err.exception else none) := by
+    rw [← hR]
+    refine forE_simB encC (loadStep m) Py.Err.exception _ (dirFiles fs p .db) (fun t e he => ?_) s
+    have hfmt : e.fmt = .db := by simpa [dirFiles] using (List.mem_filter.1 he).2
+    simp only [hdisc, encC, Py.lhas, List.any_cons, List.any_nil, Bool.or_false, loadStep, constructP]
+    by_cases hd : e.disc = m
+    · subst hd
+      have ho : objPair e = e.disc := by simp [objPair, hfmt]
+      have ha := src_cia_add_cia { t with nextId := t.nextId + 1, log := t.log ++ [(e.disc, e.fileId)] }
+        { id := t.nextId, pair := e.disc, src := some e.fileId }
+      have hf := addCia_frame { t with nextId := t.nextId + 1, log := t.log ++ [(e.disc, e.fileId)] }
+        { id := t.nextId, pair := e.disc, src := some e.fileId }
+      simp only [] at ha
+      simp only [decide_true, Bool.not_true, Bool.false_eq_true, if_false, beq_self_eq_true, if_true, ho, ha]
+      rw [hf]
+      cases (addCia { t with nextId := t.nextId + 1, log := t.log ++ [(e.disc, e.fileId)] }
+        { id := t.nextId, pair := e.disc, src := some e.fileId }).2 <;> simp [excB]
+    · have : (e.disc == m) = false := by simpa using hd
+      simp [hd, this]
+  rw [key]
+  rcases h1 : forB (loadStep m) s (dirFiles fs p .db) with ⟨s1, b1⟩
+  cases b1 with
+  | true => simp [encC, excB]
+  | false =>
+    simp only [Bool.false_eq_true, if_false, Py.caseO_none, encC]
+    generalize hR2 : Py.forE (globC fs (s1.log, s1.nextId) (CPath.single p, "*.cia")) _ _ = R2
+    have key2 : R2 = (encC (forB (loadStep m) s1 (dirFiles fs p .cia)).1,
+        if (forB (loadStep m) s1 (dirFiles fs p .cia)).2 then some Py.Err.exception else none) := by
+      rw [← hR2]
+      refine forE_simB encC (loadStep m) Py.Err.exception _ (dirFiles fs p .cia) (fun t e he => ?_) s1
+      have hfmt : e.fmt = .cia := by simpa [dirFiles] using (List.mem_filter.1 he).2
+      simp only [hdisc, encC, Py.lhas, List.any_cons, List.any_nil, Bool.or_false, loadStep, constructH]
+      by_cases hd : e.disc = m
+      · subst hd
+        have ho : objPair e = e.obj := by simp [objPair, hfmt]
+        have ha := src_cia_add_cia { t with nextId := t.nextId + 1, log := t.log ++ [(e.disc, e.fileId)] }
+          { id := t.nextId, pair := e.obj, src := some e.fileId }
+        have hf := addCia_frame { t with nextId := t.nextId + 1, log := t.log ++ [(e.disc, e.fileId)] }
+          { id := t.nextId, pair := e.obj, src := some e.fileId }
+        simp only [] at ha
+        simp only [decide_true, Bool.not_true, Bool.false_eq_true, if_false, beq_self_eq_true, if_true, ho, ha]
+        rw [hf]
+        cases (addCia { t with nextId := t.nextId + 1, log := t.log ++ [(e.disc, e.fileId)] }
+          { id := t.nextId, pair := e.obj, src := some e.fileId }).2 <;> simp [excB]
+      · have : (e.disc == m) = false := by simpa using hd
+        simp [hd, this]
+    rw [key2]
+    rcases h2 : forB (loadStep m) s1 (dirFiles fs p .cia) with ⟨s2, b2⟩
+    cases b2 <;> simp [encC, excB]
+
+/-- **`CIACache.load_cia(pair_filter=[m])` is `loadCia fs m`**: nothing without a path; one directory; or the directories of
+    a list in order, stopping at the first exception -/
+theorem src_cia_load_cia (s : St) (m : String) :
+    Gen.SrcC14.CIACache_load_cia (some [m]) () () s.dict s.path constructH constructP (globC fs) isList isStr
+        (fun o => o.pair) pathItems Prod.mk stem (s.log, s.nextId)
+      = (encC (loadCia fs m s).1, excB (loadCia fs m s).2) := by
+  unfold Gen.SrcC14.CIACache_load_cia loadCia
+  cases hp : s.path with
+  | none => simp [encC, excB]
+  | some q =>
+    cases q with
+    | single p =>
+      simp only [Option.elim_some, isStr, if_true, src_cia_load_from_path fs stem hdisc s m p, encC]
+      rcases loadDir fs m s p with ⟨s1, b1⟩
+      cases b1 <;> simp [excB]
+    | many ps =>
+      simp only [Option.elim_some, isStr, isList, Bool.false_eq_true, if_false, if_true, pathItems, Prod.eta]
+      generalize hR : Py.forE (ps.map CPath.single) _ _ = R
+      have key : R = (encC (forB (loadDir fs m) s ps).1,
+          if (forB (loadDir fs m) s ps).2 then some Py.Err.exception else none) := by
+        rw [← hR]
+        have hb : forB (loadDir fs m) s ps = forB (fun t (q : CPath) => match q with
+            | .single p => loadDir fs m t p
+            | .many _ => (t, false)) s (ps.map CPath.single) := by rw [forB_map]
+        rw [hb]
+        refine forE_simB encC _ Py.Err.exception _ (ps.map CPath.single) (fun t q hq => ?_) s
+        obtain ⟨p, _, rfl⟩ := List.mem_map.1 hq
+        have h := src_cia_load_from_path fs stem hdisc t m p
+        simp only [encC] at h ⊢
+        simp only [h]
+        cases (loadDir fs m t p).2 <;> simp [excB]
+      rw [key]
+      rcases forB (loadDir fs m) s ps with ⟨s1, b1⟩
+      cases b1 <;> simp [encC, excB]
+
+/-- **`CIACache()[m]` is `CiaSM.step fs s (.get m)`**: a cached pair is served as it is; otherwise the path is searched; an
+    exception of `add_cia` (a second object of a cached name) leaves `__getitem__`; else the object now cached under `m` is
+    served or `Exception('cia could notn be loaded')` raised -/
+theorem src_cia_getitem (s : St) (m : String) :
+    Gen.SrcC14.CIACache_getitem m () () s.dict s.path constructH constructP (globC fs) isList isStr
+        (fun o => o.pair) pathItems Prod.mk stem (s.log, s.nextId)
+      = (encC (step fs s (.get m)).1, respC (step fs s (.get m)).2) := by
+  unfold Gen.SrcC14.CIACache_getitem
+  simp only [step, clookup_eq_dget, dhas_eq_isSome', Py.dgetE]
+  cases h1 : Py.dget s.dict m with
+  | some o => simp [encC, respC]
+  | none =>
+    simp only [Option.isSome_none, Bool.false_eq_true, if_false, src_cia_load_cia fs stem hdisc s m, encC]
+    rcases loadCia fs m s with ⟨s1, b1⟩
+    cases b1 with
+    | true => simp [excB, respC]
+    | false =>
+      simp only [excB, Bool.false_eq_true, if_false, Py.caseE_ok]
+      cases h2 : Py.dget s1.dict m with
+      | some o => simp [respC]
+      | none => simp [respC]
+
+end
+
+/-- `CIACache.set_cia_path(p)` is `CiaSM.step fs s (.setPath p)`: the path is stored, nothing else happens -/
+theorem src_cia_set_path (fs : List CDir) (s : St) (p : CPath) :
+    Gen.SrcC14.CIACache_set_cia_path p = (step fs s (.setPath p)).1.path ∧
+    (step fs s (.setPath p)).1 = { s with path := (step fs s (.setPath p)).1.path } := ⟨rfl, rfl⟩
+
+/-- `add_cia(cia)` as a user calls it is `CiaSM.step fs s (.add m)` for the object the model gives the next identity -/
+theorem src_cia_add (fs : List CDir) (s : St) (m : String) :
+    Gen.SrcC14.CIACache_add_cia { id := s.nextId, pair := m, src := none } s.dict (fun o => o.pair)
+      = ((step fs s (.add m)).1.dict, match (step fs s (.add m)).2 with
+          | .dup => Except.error Py.Err.exception
+          | _ => Except.ok ()) := by
+  have h := src_cia_add_cia { s with nextId := s.nextId + 1 } { id := s.nextId, pair := m, src := none }
+  simp only [] at h
+  rw [h]
+  simp only [step]
+  rcases addCia { s with nextId := s.nextId + 1 } { id := s.nextId, pair := m, src := none } with ⟨s', b⟩
+  cases b <;> simp [excB]
+
+end
+
+/-! ### the Exo-Transmit text reader (taurex/opacity/exotransmit.py:_load_exo_transmit after `f.readlines()`)
+
+  `lines` are the text lines; `parse` stands for `np.array([float(l) for l in line.split()])`; `E` for `np.empty` (any array
+  of the requested shape: `hE`); `argsort` is the model's; the literals `1e-6`, `1e-60` are `1/1000000` and `tiny`.  The file is
+  well-formed: the lines after the two header lines are, block by block (`B`), a one-number wavelength line followed by one
+  row `P xsec(T₀) …` per pressure of the header (`hbody`, `hrows`); both header lines hold at least one number (the reader
+  takes `min()` / `max()` of them: `ValueError` otherwise).  Then the attributes the reader assigns are the fields of
+  `decExo tiny` of the parsed file. -/
+
+section
+variable {α : Type} [Add α] [Mul α] [Div α] [OfNat α 0] [OfNat α 10000] [Sub α] [Neg α] [LT α] [LE α] [DecidableLT α]
+  [DecidableLE α] [OfNat α 1] [OfNat α 10] [OfNat α 100] [OfNat α 760] [OfNat α 1000]
+  [OfNat α 100000] [OfNat α 101325] [OfNat α 1000000] [OfNat α 1000000000] [OfNat α 10000000000]
+  [OfNat α 133322387415]
+
+/-- **`ExoTransmitOpacity._load_exo_transmit` (after `readlines`) is `decExo`** for a well-formed file -/
+theorem src_exo_load (parse : String → List α) (E : Nat × Nat × Nat → List (List (List α)))
+    (hE : ∀ a b c, ∃ g, E (a, b, c) = tab3 a b c g)
+    (tiny : α) (l0 l1 : String) (body : List String) (B : List (α × List (List α)))
+    (hbody : body.map parse = B.flatMap (fun b => [b.1] :: b.2))
+    (hrows : ∀ b ∈ B, b.2.length = (parse l1).length ∧ ∀ r ∈ b.2, r.length = (parse l0).length + 1)
+    (hT : parse l0 ≠ []) (hP : parse l1 ≠ [])
+    (mxp mxt mnp mnt : α) (p0 t0 w0 : List α) (x0 : List (List (List α))) :
+    Gen.SrcC14.ExoTransmit_load (l0 :: l1 :: body) (c1em06 := 1 / 1000000) (c1em60 := tiny) mxp mxt mnp mnt
+        argsort E parse p0 t0 w0 x0
+      = (((decExo tiny ⟨parse l0, parse l1, body.map parse⟩).t, (decExo tiny ⟨parse l0, parse l1, body.map parse⟩).p,
+          (decExo tiny ⟨parse l0, parse l1, body.map parse⟩).wn, (decExo tiny ⟨parse l0, parse l1, body.map parse⟩).x,
+          lmin ((parse l1).map (fun v => v * 100000)), lmax ((parse l1).map (fun v => v * 100000)),
+          lmin (parse l0), lmax (parse l0)), Except.ok ()) := by
+  have hP' : (parse l1).map (fun v => v * (100000 : α)) ≠ [] := by simpa using hP
+  have hnT : 1 ≤ (parse l0).length := by
+    cases h : parse l0 with
+    | nil => exact absurd h hT
+    | cons a t => simp
+  have hne1 : ∀ b ∈ B, ∀ r ∈ b.2, r.length ≠ 1 := by
+    intro b hb r hr
+    have := (hrows b hb).2 r hr
+    omega
+  unfold Gen.SrcC14.ExoTransmit_load
+  simp only [List.getD_cons_zero, List.getD_cons_succ, List.drop_succ_cons, List.drop_zero, minE_eq _ hP', maxE_eq _ hP',
+    minE_eq _ hT, maxE_eq _ hT, Py.caseE_ok, Gen.SrcC14.ExoTransmit_pressureGrid, Gen.SrcC14.ExoTransmit_temperatureGrid,
+    Gen.SrcC14.ExoTransmit_wavenumberGrid]
+  rw [foldl_via (wnStep (1 / 1000000)) parse _ ?h1 [] body]
+  case h1 => intro st it; simp [wnStep]
+  rw [foldl_via (xsStep tiny) parse _ ?h2 _ body]
+  case h2 => intro st it; simp [xsStep]
+  rw [hbody, wn_blocks _ B hne1]
+  simp only [List.nil_append, List.length_map, argsort_length]
+  obtain ⟨g, hg⟩ := hE (parse l1).length (parse l0).length B.length
+  have h0 : ((-1 : Int), (0 : Int), E ((parse l1).length, (parse l0).length, B.length))
+      = (((0 : Nat) : Int) - 1, (0 : Int), tab3 (parse l1).length (parse l0).length B.length g) := by
+    rw [hg]; rfl
+  obtain ⟨pc', hloop⟩ := blocks_loop tiny (parse l1).length (parse l0).length B.length hnT B 0 g 0 (by omega) hrows
+  rw [h0, hloop]
+  unfold decExo
+  simp only [exoGroup_blocks' B hne1, exoWn, gather]
+  refine Prod.ext (Prod.ext rfl (Prod.ext rfl (Prod.ext rfl (Prod.ext ?_ rfl)))) rfl
+  simp only [Py.takeLast3, tab3, List.map_map]
+  apply List.map_congr_left
+  intro i _
+  simp only [Function.comp, List.map_map]
+  apply List.map_congr_left
+  intro j _
+  simp only [Function.comp, List.map_map]
+  apply List.map_congr_left
+  intro k hk
+  have hk' : k < B.length := by
+    have := argsort_lt _ k hk
+    simpa using this
+  simp only [Function.comp]
+  rw [getD_map_range _ _ k hk']
+  have c : (0 ≤ k ∧ k < 0 + B.length) := ⟨by omega, by omega⟩
+  rw [if_pos c, Nat.sub_zero]
+
+end
+
 /-! ### the readers: container contents -> loaded table
 
   `start_at` / `stop_at` in the specs select the assignments that turn what the container library delivered (the declared
@@ -374,10 +759,6 @@ variable {α : Type} [Add α] [Sub α] [Mul α] [Div α] [Neg α] [LT α] [LE α
   [Taurex.Transc α] [OfNat α 0] [OfNat α 1] [OfNat α 10] [OfNat α 100] [OfNat α 760] [OfNat α 1000] [OfNat α 10000]
   [OfNat α 100000] [OfNat α 101325] [OfNat α 1000000] [OfNat α 1000000000] [OfNat α 10000000000]
   [OfNat α 133322387415]
-
-/-- `HitranCIA._wn_dict` for the model's grids -/
-def gdict (hk : α × α → String) (grids : List (HGrid α)) : List (String × (List α × List (α × List α))) :=
-  grids.map (fun g => (hk g.key, (g.wn, g.ts)))
 
 /-- **`HitranCIA.fill_gaps(temperature)` is `fillGaps`**: every grid object is sorted and filled up to the master temperature
     grid, in place; no exception as long as every grid has at least one temperature -/
@@ -473,6 +854,92 @@ theorem src_load_hitran_decHitran (hlt : ∀ a b : α, ¬ b < a ↔ a ≤ b) (hk
   intro r
   have hr : r = _ := src_load_hitran_tail hlt hk (hLoad blocks).1 (hLoad blocks).2 hne t0 w0 x0
   rw [hr]
+  simp [decHitran, finalGrid]
+
+/-- `HitranCIA.read_header(f)` on a file that starts with the header line of the block `b`: the line is consumed, its tokens
+    1–5 are the header fields, token 0 becomes `_pair_name` -/
+theorem src_read_header (tx : HText α) (blocks : List (HBlock α)) (hok : tx.Ok blocks) (b : HBlock α) (hb : b ∈ blocks)
+    (rest : List String) (pn : String) :
+    Gen.SrcC14.HitranCIA_read_header (tx.hdr b :: rest) pn tx.splitWs tx.toFloat tx.toInt
+      = ((rest, (tx.splitWs (tx.hdr b)).getD 0 ""),
+         Except.ok (b.wn0, b.wn1, b.pts.length, b.temp, tx.toFloat ((tx.splitWs (tx.hdr b)).getD 5 ""))) := by
+  obtain ⟨⟨hne, h1, h2, h3, h4⟩, _⟩ := hok b hb
+  unfold Gen.SrcC14.HitranCIA_read_header
+  simp only [List.headD_cons, List.tail_cons, Bool.false_or, decide_eq_true_eq, hne, if_false, h1, h2, h3, h4]
+
+/-- `read_header` at the end of the file raises `EndOfHitranCIAException` -/
+theorem src_read_header_eof (tx : HText α) (pn : String) :
+    Gen.SrcC14.HitranCIA_read_header ([] : List String) pn tx.splitWs tx.toFloat tx.toInt
+      = (([], pn), Except.error (Py.Err.other "EndOfHitranCIAException")) := by
+  unfold Gen.SrcC14.HitranCIA_read_header
+  simp
+
+/-- **the WHOLE of `HitranCIA.load_hitran_file` is `decHitran`**, reading loop included.  The open file is the list of its lines
+    (`tx.lines blocks`: per block its header line and one line per data point; `tx.Ok`: the tokens of these lines parse back to
+    the numbers — `line.split()`, `float`, `int` are `tx.splitWs`, `tx.toFloat`, `tx.toInt`); `hashwn := hk` separates the
+    `(start, end)` headers of the file as the model's comparison does (`HashOk`); `HitranCiaGrid(a, b)` makes an empty grid
+    object; `1e-10 := 1/10000000000`; `np.argsort := argsort`; `fuel` = one pass per block and the pass that finds the end of
+    the file.  Then `while True` reads the blocks one by one (`read_header`, the loop over the data lines with the clipping of
+    negative values, the look-up / creation of the range object in `_wn_dict` — which IS the dict's element —,
+    `add_temperature`, the overwritten wavenumber grid) exactly as the fold `hLoad` does, and the rest of the function (sort,
+    `fill_gaps`, `compute_final_grid`) gives the temperature grid, wavenumber grid and table of `decHitran blocks`. -/
+theorem src_load_hitran_file (hlt : ∀ a b : α, ¬ b < a ↔ a ≤ b) (tx : HText α) (hk : α × α → String)
+    (blocks : List (HBlock α)) (hok : tx.Ok blocks) (hh : HashOk hk blocks)
+    (pn0 : String) (t0 w0 : List α) (x0 : List (List α)) :
+    ∃ pn, Gen.SrcC14.HitranCIA_load_hitran_file (c1em10 := 1 / 10000000000) (tx.lines blocks) (blocks.length + 1) (fun a b => hk (a, b))
+        (fun _ _ => ([], [])) argsort pn0 tx.splitWs t0 tx.toFloat tx.toInt w0 [] x0
+      = ((pn, (decHitran blocks).t,
+          gdict hk (fillGaps ((hLoad blocks).1.mergeSort (fun a b => decide (a ≤ b))) (hLoad blocks).2),
+          (decHitran blocks).wn, (decHitran blocks).x), Except.ok ()) := by
+  unfold Gen.SrcC14.HitranCIA_load_hitran_file
+  simp only [Prod.eta]
+  generalize hR : Py.whileE (blocks.length + 1) _ _ = R
+  obtain ⟨pn, hw⟩ : ∃ pn, R = (([], pn, (hLoad blocks).1, gdict hk (hLoad blocks).2), none) := by
+    rw [← hR]
+    refine while_blocks tx hk blocks hh _ ?hEnd ?hPass blocks (fun b hb => hb) pn0 [] [] ⟨by simp, by simp⟩
+    case hEnd =>
+      intro pn tl d
+      simp only [src_read_header_eof, Py.caseE_error]
+      simp
+    case hPass =>
+      intro b hb rest pn tl grids hg
+      refine ⟨(tx.splitWs (tx.hdr b)).getD 0 "", ?_⟩
+      simp only [src_read_header tx blocks hok b hb, Py.caseE_ok]
+      rw [data_loop tx _ ?hF b.pts (List.range b.pts.length) rest [] [] (by simp) (hok b hb).2]
+      case hF => intro st i; simp [dataStep]
+      simp only [List.nil_append, src_add_temperature, dset_dset_same]
+      have hm : (if (!(tl.any fun y__ => decide (b.temp ≤ y__) && decide (y__ ≤ b.temp))) = true then tl ++ [b.temp] else tl)
+          = (hStepG (tl, grids) b).1 := by
+        show (if (!memv b.temp tl) = true then tl ++ [b.temp] else tl) = (if memv b.temp tl then tl else tl ++ [b.temp])
+        cases memv b.temp tl <;> rfl
+      rw [hm]
+      simp only [hStepG, upsert_hash hk blocks hh grids hg b hb, dhas_gdict]
+      by_cases ha : grids.any (fun g => decide (hk g.key = hk (b.wn0, b.wn1))) = true
+      · obtain ⟨g0, hg0, hk0⟩ := List.any_eq_true.1 ha
+        have hk0' : hk g0.key = hk (b.wn0, b.wn1) := by simpa using hk0
+        obtain ⟨hget, hset⟩ := gdict_hit hk (hk (b.wn0, b.wn1)) grids hg.1 g0 hg0 hk0'
+        simp only [ha, Bool.not_true, Bool.false_eq_true, if_false, if_true, Py.dgetE, hget, Py.caseE_ok, hset]
+        have hmap : grids.map (fun g => if hk g.key = hk (b.wn0, b.wn1) then
+              { g with wn := b.pts.map (·.1), ts := g0.ts ++ [(b.temp, b.pts.map (fun q => clipSigma q.2))] } else g)
+            = grids.map (fun g => if hk g.key = hk (b.wn0, b.wn1) then
+              { g with wn := b.pts.map (·.1), ts := g.ts ++ [(b.temp, b.pts.map (fun q => clipSigma q.2))] } else g) := by
+          apply List.map_congr_left
+          intro g hgm
+          by_cases hgk : hk g.key = hk (b.wn0, b.wn1)
+          · have : g = g0 := nodup_map_inj (fun g : HGrid α => hk g.key) grids hg.1 g hgm g0 hg0 (hgk.trans hk0'.symm)
+            subst this
+            rfl
+          · simp [hgk]
+        rw [hmap]
+      · have hf : Py.dhas (gdict hk grids) (hk (b.wn0, b.wn1)) = false := by
+          rw [dhas_gdict]; simpa using ha
+        simp only [ha, Bool.not_false, if_true, Bool.false_eq_true, if_false, dset_new' _ _ _ hf, Py.dgetE,
+          dget_append_new _ _ _ hf, Py.caseE_ok, dset_append_new _ _ _ _ hf, List.nil_append]
+        simp [gdict]
+  rw [hw]
+  refine ⟨pn, ?_⟩
+  simp only [Py.caseO_none, sort_eq_mergeSort hlt, src_fill_gaps hlt hk _ _ (hLoad_ts_ne' blocks), Py.caseE_ok,
+    src_compute_final_grid]
   simp [decHitran, finalGrid]
 
 end
